@@ -27,40 +27,59 @@ Inductive unix_addr :=
 (* what the parser decides before the file system is asked *)
 Inductive addr_pre :=
 | PErr                    (* NoAddressFound / AddressTypeNotSupported *)
-| PPath (p : list N)      (* first path|abstract key is "path" *)
-| PAbstract (k : list N). (* first path|abstract key is "abstract" *)
+| PPath (p : list N)      (* the one socket key is "path" *)
+| PAbstract (k : list N). (* the one socket key is "abstract" *)
 
-(* parse_dbus_addr_str: `for pair in addr_pairs.split(',')` with the body
+Definition SEMICOLON : N := 59.
+
+Definition is_socket_key (key : list N) : bool := bytes_eqb key PATH || bytes_eqb key ABSTRACT.
+Definition is_nil (l : list N) : bool := match l with [] => true | _ => false end.
+Definition is_some {A} (o : option A) : bool := match o with Some _ => true | None => false end.
+
+(* parse_dbus_addr_str: `let mut socket = None; for pair in addr_pairs.split(',')` with the body
      let (key, value) = pair.split_once('=').ok_or(..)?;
-     match key { "path" => return .., "abstract" => return .., _ => {} }
-   and `Err(AddressTypeNotSupported)` after the loop *)
-Fixpoint scan_pairs (pairs : list (list N)) : addr_pre :=
+     if key == "path" || key == "abstract" {
+         if socket.is_some() || value.is_empty() { return Err(..) }
+         socket = Some((key, value));
+     }
+   [socket] is (key == "path", value); None = an error return, Some socket = the loop ran to its end *)
+Fixpoint scan_pairs (pairs : list (list N)) (socket : option (bool * list N)) : option (option (bool * list N)) :=
   match pairs with
-  | [] => PErr
+  | [] => Some socket
   | pr :: rest =>
       match split_once EQUALS pr with
-      | None => PErr
+      | None => None
       | Some (key, value) =>
-          if bytes_eqb key PATH then PPath value
-          else if bytes_eqb key ABSTRACT then PAbstract value
-          else scan_pairs rest
+          if is_socket_key key then
+            if is_some socket || is_nil value then None
+            else scan_pairs rest (Some (bytes_eqb key PATH, value))
+          else scan_pairs rest socket
       end
   end.
 
-(* parse_dbus_addr_str up to the two returns: split_once(':'), the "unix" test, the loop *)
+(* parse_dbus_addr_str up to the `match socket`: addr.contains(';'), split_once(':'), the "unix" test,
+   the loop *)
 Definition parse_pre (addr : list N) : addr_pre :=
-  match split_once COLON addr with
-  | None => PErr
-  | Some (addr_system, addr_pairs) =>
-      if bytes_eqb addr_system UNIX then scan_pairs (split COMMA addr_pairs) else PErr
-  end.
+  if existsb (N.eqb SEMICOLON) addr then PErr
+  else
+    match split_once COLON addr with
+    | None => PErr
+    | Some (addr_system, addr_pairs) =>
+        if bytes_eqb addr_system UNIX then
+          match scan_pairs (split COMMA addr_pairs) None with
+          | Some (Some (true, value)) => PPath value
+          | Some (Some (false, value)) => PAbstract value
+          | Some None | None => PErr
+          end
+        else PErr
+    end.
 
 (* sockaddr_un.sun_path has 108 bytes: UnixAddr::new / new_abstract fail with ENAMETOOLONG when
    `len >= 108` (nix 0.28 src/sys/socket/addr.rs) *)
 Definition SUN_PATH : N := 108.
 
-(* the two `return`s: "path" => if p.exists() { UnixAddr::new(&p) } else { PathDoesNotExist },
-   "abstract" => UnixAddr::new_abstract(value.as_bytes()) *)
+(* `match socket`: Some(("path", value)) => if p.exists() { UnixAddr::new(&p) } else { PathDoesNotExist },
+   Some((_, value)) => UnixAddr::new_abstract(value.as_bytes()) (Linux), None => AddressTypeNotSupported *)
 Definition resolve (exists_ : list N -> bool) (pre : addr_pre) : outcome unix_addr :=
   match pre with
   | PErr => Err
